@@ -126,16 +126,23 @@ fn compare(kind: &str, a: &str, b: &str) -> Vec<&'static str> {
             if fa.len() != fb.len() {
                 return vec!["diff", "ranges"];
             }
+            let mut ranges_differ = false;
+            let mut diffs_differ = false;
             for (x, y) in fa.iter().zip(fb.iter()) {
                 if x != y {
                     if x.starts_with('R') {
-                        out.push("ranges");
+                        ranges_differ = true;
                     } else {
-                        out.push("diff");
+                        diffs_differ = true;
                     }
                 }
             }
-            out.dedup();
+            if ranges_differ {
+                // the two diffs were computed from different inputs: only the serialisation can be blamed
+                out.push("ranges");
+            } else if diffs_differ {
+                out.push("diff");
+            }
             out
         }
         "D" => {
@@ -146,7 +153,68 @@ fn compare(kind: &str, a: &str, b: &str) -> Vec<&'static str> {
             }
         }
         "L" => vec!["level"],
-        "Y" => vec!["sync"],
+        "Y" => {
+            if a == "PANIC" || b == "PANIC" {
+                return vec!["panic", "store"];
+            }
+            let mut out: std::collections::BTreeSet<&'static str> = Default::default();
+            let (ae, ah) = a.split_once('#').unwrap_or((a, ""));
+            let (be, bh) = b.split_once('#').unwrap_or((b, ""));
+            if ah != bh {
+                out.insert("hash");
+            }
+            let ea: Vec<&str> = ae.split(';').collect();
+            let eb: Vec<&str> = be.split(';').collect();
+            if ea.len() != eb.len() {
+                return vec!["store", "struct", "cache", "hash"];
+            }
+            for (x, y) in ea.iter().zip(eb.iter()) {
+                if x == y {
+                    continue;
+                }
+                let ra: Vec<&str> = x.split('/').collect();
+                let rb: Vec<&str> = y.split('/').collect();
+                if ra.len() != rb.len() {
+                    return vec!["store", "struct", "cache", "hash"];
+                }
+                for (p, q) in ra.iter().zip(rb.iter()) {
+                    if p == q {
+                        continue;
+                    }
+                    let fp: Vec<&str> = p.split('|').collect();
+                    let fq: Vec<&str> = q.split('|').collect();
+                    if fp.len() != fq.len() || fp.len() < 3 {
+                        return vec!["store", "struct", "cache", "hash"];
+                    }
+                    if fp[0] != fq[0] {
+                        out.insert("store");
+                    }
+                    // D=..|rc=.. compared like a tree state
+                    let ta = format!("{}|{}", fp[1], fp[2]);
+                    let tb = format!("{}|{}", fq[1], fq[2]);
+                    for pr in compare_tree_lines(&ta, &tb) {
+                        match pr {
+                            "struct" | "trav" | "content" => {
+                                out.insert("struct");
+                            }
+                            "cache" => {
+                                out.insert("cache");
+                            }
+                            "hash" | "ranges" => {
+                                out.insert("hash");
+                            }
+                            _ => {
+                                out.insert("struct");
+                            }
+                        }
+                    }
+                }
+            }
+            if out.is_empty() {
+                out.insert("store");
+            }
+            out.into_iter().collect()
+        }
         _ => vec!["unknown"],
     }
 }
@@ -383,9 +451,12 @@ fn main() {
             match pos[0] {
                 "tree-exh" => gen::tree_exh(&mut s, p(1), p(2), p(3), pos.get(4) == Some(&"b")),
                 "tree-rand" => gen::tree_rand(&mut s, p(1) as u64, seed, p(2)),
+                "tree-stair" => gen::tree_stair(&mut s, p(1) as u64, seed),
+                "tree-flat" => gen::tree_flat(&mut s, p(1) as u64, seed),
                 "tree-perm" => gen::tree_perm(&mut s, p(1), p(2), pos.get(3).map(|x| x.contains('h')).unwrap_or(false), pos.get(3).map(|x| x.contains('u')).unwrap_or(false)),
                 "pair-exh" => gen::pair_exh(&mut s, p(1), p(2)),
                 "pair-rand" => gen::pair_rand(&mut s, p(1) as u64, seed, p(2)),
+                "pair-twin" => gen::pair_twin(&mut s, p(1) as u64, seed),
                 "list-exh" => gen::list_exh(&mut s, p(1) as u32, p(2)),
                 "list-rand" => gen::list_rand(&mut s, p(1) as u64, seed),
                 "level-exh" => gen::level_exh(&mut s, p(1)),
